@@ -39,11 +39,11 @@ def block(text, start_pat, what):
     return rest[:m.start()] if m else rest
 
 
-def arms(blk, what, pat=r"^\s+((?:[A-Z_]+)(?: \| [A-Z_]+)*|tag @ \([A-Z_ |]+\)) => "):
-    """Upper-case constant match arms (in order) of a decoder block."""
+def arms(blk, what, pat=r"^\s+((?:[A-Z_]+)(?: \| [A-Z_]+)*|tag @ \([A-Z_ |]+\))( if [^=\n]*?)? => "):
+    """Upper-case constant match arms (in order) of a decoder block; a guarded arm (`X if cond =>`) is `X?`."""
     out = []
-    for a in re.findall(pat, blk, re.M):
-        out += re.findall(r"[A-Z_]+", a)
+    for a, guard in re.findall(pat, blk, re.M):
+        out += [n + ("?" if guard else "") for n in re.findall(r"[A-Z_]+", a)]
     if not out:
         raise ExtractError(f"{what}: no constant match arms found")
     return out
